@@ -11,7 +11,7 @@ from vpkit import common, pairs, zoo
 
 ID = "C22"
 N = {"quick": 110, "thorough": 4000}
-BUDGET = {"quick": 240.0, "thorough": 1500.0}
+BUDGET = {"quick": 240.0, "thorough": 700.0}
 RULE = ("case = (diploid simulation / inference with 5-200 singletons, option set incl. "
         "match_segregating_sites and rescaling, 2 random re-phasings; plus inputs with haploid, "
         "triploid, historical or internal-node individuals that must be rejected or left alone); "
